@@ -223,6 +223,26 @@ def write_and_load(cfg, workdir, tid):
         shutil.rmtree(d, ignore_errors=True)
 
 
+def utf8_labels_load(workdir):
+    """A .ts file is UTF-8 text: class labels outside ASCII come back as written."""
+    from sktime.utils.data_io import load_from_tsfile_to_dataframe
+    labels = ["\u00e9t\u00e9", "\u00dcbung", "\u03b1\u03b2"]
+    path = os.path.join(workdir, "utf8_labels.ts")
+    with open(path, "w", encoding="utf-8") as f:
+        f.write("@problemName u\n@timeStamps false\n@univariate true\n@classLabel true %s\n@data\n" % " ".join(labels))
+        for i in range(4):
+            f.write("%d.0,%d.5,2.0:%s\n" % (i, i, labels[i % 3]))
+    try:
+        X, y = load_from_tsfile_to_dataframe(path)
+        got = [str(v) for v in y]
+        want = [labels[i % 3] for i in range(4)]
+        if [g.lower() for g in got] != [w.lower() for w in want] or len(X) != 4:
+            return "labels written %s, loaded %s" % (want, got)
+        return None
+    finally:
+        os.remove(path)
+
+
 def multivariate_arff_agrees(name):
     """The relational (multivariate) .arff file of a bundled problem parses to the panel of its .ts file."""
     from sktime.utils.data_io import load_from_tsfile_to_dataframe, load_from_arff_to_dataframe
@@ -372,6 +392,15 @@ def run(ctx):
             ctx.violation({"dataset": "BasicMotions", "format": "arff"}, "FormatsAgree (multivariate .arff): " + msg)
     except Exception as e:
         ctx.violation({"dataset": "BasicMotions", "format": "arff"}, "multivariate .arff loader crash: %s %s" % (type(e).__name__, str(e)[:120]))
+    ctx.evaluations += 1
+    try:
+        msg = utf8_labels_load(ctx.work)
+        if msg:
+            ctx.violation({"utf8_labels": True}, "ParsedPanel (labels outside ASCII): " + msg)
+        else:
+            ctx.nontriv({"utf8_labels": True})
+    except Exception as e:
+        ctx.violation({"utf8_labels": True}, "loader crash on UTF-8 labels: %s %s" % (type(e).__name__, str(e)[:120]))
     fill = {"ts": [], "arff": [], "tsv": [], "lines": [], "loaded": {"rej": False, "cases": [], "labelled": False}, "opts": {"comment": False, "equal": False, "labelled": False},
             "panel": [], "labels": [], "d": {}, "has_formats": False}
     rejects, _ = ctx.judge("TraceTsFile", "TraceTsFile.cfg",
